@@ -127,3 +127,12 @@ func utf8Rune(b []byte, k int) rune {
 
 //@ extern strconv.FormatUint(i uint64, base int) (result string)
 //@ trusted strconv: pure function; only used to build error messages
+
+//@ extern utf16.IsSurrogate(r rune) (result bool)
+//@ trusted unicode/utf16: validated exhaustively over all rune values
+//@ ensures result == (0xd800 <= r && r < 0xe000)
+
+//@ extern utf16.DecodeRune(r1, r2 rune) (result rune)
+//@ trusted unicode/utf16: validated exhaustively over all surrogate pairs and sampled elsewhere
+//@ ensures pair: 0xd800 <= r1 && r1 < 0xdc00 && 0xdc00 <= r2 && r2 < 0xe000 ==> result == (r1-0xd800)*1024+(r2-0xdc00)+0x10000
+//@ ensures nopair: !(0xd800 <= r1 && r1 < 0xdc00 && 0xdc00 <= r2 && r2 < 0xe000) ==> result == 0xfffd
